@@ -1,6 +1,7 @@
 """C19: comparison rewriting keeps meaning. Regenerated tables + proofs; translator validated against the
 Go functions executed through the harness; search = enumerate operator x value grid on the real functions."""
 from . import common
+from . import spellings
 
 
 def search(ctx):
@@ -62,6 +63,23 @@ def run(ctx):
     for w in rows[:3]:
         ctx.sample(" ".join(w))
     ctx.sample("theorem C19_branch_attribution: forall binop x y t f s, operand_ok x -> operand_ok y -> apply binop x y = Some (t,f,s) -> ...")
+
+    # whole tool: every spelling of a nil / length check, in conditional and short-circuit positions
+    nsp, sp_bad, sp_samples, sp_src = spellings.run_suite(ctx)
+    ctx.obligation("whole tool: %d generated functions (4 nil spellings x negation depth 0-2 x 8 positions; 24 length spellings x negation x 5 positions): "
+                   "the dereference is reported iff the check does not protect it" % nsp, nsp > 0 and not sp_bad)
+    ctx.coverage["evaluations"] += nsp
+    ctx.coverage["distinct_nontrivial"] += nsp
+    ctx.coverage["rule"] += "; plus one generated Go function per (comparison spelling, negation depth, syntactic position), all distinct, expected verdict computed from the comparison's truth table"
+    for smp in sp_samples[:2]:
+        ctx.sample(smp)
+    for b in sp_bad[:3]:
+        name = b.split(" ")[0]
+        fn = sp_src[sp_src.index("func %s(" % name) - 40:]
+        fn = fn[fn.index("//"):]
+        fn = fn[:fn.index("\n}\n") + 3]
+        ctx.violation("spelling", "C19 fails on the real tool (a comparison is attributed to the wrong branch): %s\n\nprogram (package sp, plus a caller passing nil):\n%s\n"
+                      "replay: put it in a module, add `func c() { _ = %s(nil) }`, run nilaway.\n" % (b, fn, name))
 
     if not ok or mism:
         wit, why = search(ctx)
